@@ -305,6 +305,31 @@ fn exec_toks(t: &[&str]) -> Option<String> {
                         out.push_str(&format!(" {}", fhex(v)));
                     }
                 }
+                // the drawn double against its exact rational closed form (integer arithmetic only):
+                // gen::<f64>() = (v >> 11) / 2^53 ; gen_range(-0.5, 0.5) = (v >> 12) / 2^52 - 1/2
+                "unitq" | "halfq" => {
+                    for _ in 0..n {
+                        let mut peek = rng.clone();
+                        let v = peek.next_u64();
+                        let u: f64 = if op == "unitq" { rng.gen() } else { rng.gen_range(-0.5, 0.5) };
+                        let (shift, want): (i32, i128) = if op == "unitq" { (53, (v >> 11) as i128) } else { (52, (v >> 12) as i128 - (1i128 << 51)) };
+                        // u = ±m·2^e exactly
+                        let b = u.to_bits();
+                        let neg = b >> 63 == 1;
+                        let ex = ((b >> 52) & 0x7ff) as i32;
+                        let fr = (b & ((1u64 << 52) - 1)) as i128;
+                        let (m, e) = if ex == 0 { (fr, -1074) } else { (fr + (1i128 << 52), ex - 1075) };
+                        let got = if neg { -m } else { m };
+                        let exact = if m == 0 {
+                            want == 0
+                        } else if e + shift >= 0 {
+                            got << ((e + shift) as u32) == want
+                        } else {
+                            got == want << ((-(e + shift)) as u32)
+                        };
+                        out.push_str(&format!(" {} {}", fhex(u), if exact { "exact" } else { "INEXACT-IMPL" }));
+                    }
+                }
                 // the optimiser's per-step pattern: index, step draw, threshold
                 "mixed" => {
                     let m = k.usize()?;
